@@ -31,8 +31,8 @@ var properties = map[string]*Property{
 		NotDecided: "termination within a time bound; implicit runtime panics (index/nil) raised in the calling goroutine outside a recovering frame.",
 	},
 	"C04": {
-		Rules:      []string{"R-NONDET", "R-JOBS-INERT", "R-TOKEN", "R-OWN", "R-HASH-PURE", "R-HINT"},
-		Decided:    "no nondeterministic API is reachable from the encode path; the per-task job count is unobservable in the forward direction; bytes are appended to the shared stream only while holding the hand-off token; tasks share no mutable state outside the protocol; the size hint does not steer the data path.",
+		Rules:      []string{"R-NONDET", "R-JOBS-INERT", "R-TOKEN", "R-OWN", "R-HASH-PURE", "R-HINT", "R-BLOCK-BOUND"},
+		Decided:    "no nondeterministic API is reachable from the encode path; the per-task job count is unobservable in the forward direction; bytes are appended to the shared stream only while holding the hand-off token; tasks share no mutable state outside the protocol; the size hint does not steer the data path. The encode task reads its reused input slot only within the current block length.",
 		NotDecided: "independence from the partition into Write calls (index arithmetic in Writer.Write).",
 	},
 	"C05": {
@@ -46,7 +46,7 @@ var properties = map[string]*Property{
 		NotDecided: "Write/Read buffer-length independence (arithmetic); sink-side chunking.",
 	},
 	"C07": {
-		Rules:      []string{"R-TOKEN", "R-CANCEL", "R-POISON", "R-ERRSTATE"},
+		Rules:      []string{"R-TOKEN", "R-CANCEL", "R-POISON", "R-ERRSTATE", "R-SKIP-ORDER", "R-EOS-ONLY"},
 		Decided:    "exclusive and ordered access to the shared stream (dominance by the acquire edge, nothing after release); every task exit passes the token or cancels, including panics; waiters have a cancel exit; every task joins; a failure is reported by the enclosing call and stays reported.",
 		NotDecided: "fairness/timing (\"promptly\"); memory-model subtleties beyond all accesses being sync/atomic.",
 	},
